@@ -9,6 +9,7 @@ CONSTANTS
   DevFlushSkipsLast = FALSE
   DevResizeKeepsOldGdt = FALSE
   DevResizeMovesSoleBackup = FALSE
+  DevBackupSearchIgnoresSs2 = FALSE
 INVARIANT TypeOK
 INVARIANT InvCurrent
 INVARIANT InvBackupSet
